@@ -14,9 +14,10 @@ QR == INSTANCE QR
 Trace == ndJsonDeserialize("trace.ndjson")
 N == Len(Trace)
 
-VARIABLES l, bad, memo, seen
-vars == <<l, bad, memo, seen>>
-Init == l = 1 /\ bad = <<>> /\ memo = {} /\ seen = {}
+VARIABLES l, bad, memo, seen, rdv
+vars == <<l, bad, memo, seen, rdv>>
+None == [ok |-> FALSE, why |-> "none"]
+Init == l = 1 /\ bad = <<>> /\ memo = {} /\ seen = {} /\ rdv = None
 
 P(e, i) == IF i <= Len(e.p) THEN e.p[i] ELSE 0
 HasPx(e) == "px" \in DOMAIN e.res
@@ -47,10 +48,17 @@ Tags(e, rd) == IF Known(e) THEN EncodeTags(e, rd) ELSE <<"unknown-event">>
 
 Cover(e, rd) == IF Known(e) /\ e.res.kind = "ok" /\ HasPx(e) /\ rd.ok THEN {<<rd.version, rd.level, rd.mask, rd.modes>>} ELSE {}
 
-Step ==
-  /\ l <= N
+\* Two steps per event: first the image is read (once; the reader's result becomes part of the state), then it is judged.
+NeedsRead(e) == Known(e) /\ e.res.kind = "ok" /\ HasPx(e)
+ReadStep ==
+  /\ l <= N /\ rdv = None /\ NeedsRead(Trace[l])
+  /\ rdv' = QR!Read(Trace[l].res.px)
+  /\ UNCHANGED <<l, bad, memo, seen>>
+JudgeStep ==
+  /\ l <= N /\ (rdv # None \/ ~NeedsRead(Trace[l]))
+  /\ rdv' = None
   /\ LET e == Trace[l]
-         rd == IF Known(e) /\ e.res.kind = "ok" /\ HasPx(e) THEN QR!Read(e.res.px) ELSE [ok |-> FALSE, why |-> "no-pixels"]
+         rd == IF rdv = None THEN [ok |-> FALSE, why |-> "no-pixels"] ELSE rdv
          t == Tags(e, rd)
      IN /\ bad' = bad \o [i \in 1..Len(t) |-> [l |-> l, why |-> t[i]]]
         /\ memo' = IF Known(e) /\ e.res.kind = "ok" /\ HasPx(e) /\ ~\E x \in memo : x.k = PatternKey(e)
@@ -58,6 +66,7 @@ Step ==
         /\ seen' = seen \cup Cover(e, rd)
   /\ l' = l + 1
 
+Step == ReadStep \/ JudgeStep
 Spec == Init /\ [][Step]_vars
 MemoStable == [][memo \subseteq memo']_vars
 Done == l = N + 1 => JsonSerialize("verdict.json", [n |-> l - 1, bad |-> bad, seen |-> SetToSeq(seen)])
